@@ -302,6 +302,16 @@ def extra_ops(spec, leaf):
     for p, f in W.leaf_paths(spec):
         if f == lspec and not f.get("o", {}).get("required") and "[" not in p:
             ops.append(["set", p, None])       # None assigned over a (possibly non-None) default
+    # a value that is first set after the configuration has already been serialised once
+    if spec.get("dynamic"):
+        ops.append(["rset", "late_dynamic", [1, "two"]])
+    for key, f in spec["fields"]:
+        if f["k"] == "Schema" and f.get("dynamic"):
+            ops.append(["rset", key + ".late_dynamic", "v"])
+    valid = W.catalogue()[leaf][1]
+    for p, f in W.leaf_paths(spec)[:1]:
+        if f == lspec and "[" not in p and W._jsonlike(valid[-1]):
+            ops.append(["rset", p, valid[-1]])
     return ops
 
 
